@@ -68,6 +68,8 @@ def run(ctx):
                 key_names |= set(n.id for n in ast.walk(r) if isinstance(n, ast.Name))
             params = set(a.arg for a in gk.args.args) | set(a.arg for a in gk.args.kwonlyargs)
             covered = set(e for e in extra if e in key_names and e in params)
+            if gk.args.kwarg is not None and gk.args.kwarg.arg in key_names:
+                covered = set(extra)          # the key is built from the whole keyword dictionary
             missing = sorted(extra - covered)
             if not missing:
                 rs.ok({"class": q.split(".")[-1], "walk_kwargs": sorted(extra), "key": [short(r) for r in rets]})
